@@ -37,6 +37,10 @@ func NewDynamicAllowlist(persistent, dynamic []netip.Prefix) (l *DynamicAllowlis
 
 // IsAllowed implements the Allowlist interface for *DynamicAllowlist.
 func (l *DynamicAllowlist) IsAllowed(_ context.Context, ip netip.Addr) (ok bool, err error) {
+	// Networks have no zones, and [netip.Prefix.Contains] never matches an
+	// address that has one, so compare the address itself.
+	ip = ip.WithZone("")
+
 	for _, n := range l.persistent {
 		if n.Contains(ip) {
 			return true, nil
